@@ -73,7 +73,7 @@ BASE_KEYS = ("population_size", "fitness_error", "max_cycles", "early_stopping")
 
 def param_variants(name):
     """algorithm-specific parameter values around the documented ones that the configuration class's own validators accept:
-    list of (key, value). Candidates: halves/doubles/±1 of the documented value and a grid of common probabilities."""
+    list of (key, value). Candidates: halves/doubles/±1 of the documented value, zero (an operator switched off) and a grid of common probabilities."""
     if name in _PARAM_CACHE:
         return _PARAM_CACHE[name]
     cname, d = CFGS[name]
@@ -84,9 +84,9 @@ def param_variants(name):
             continue
         cands = []
         if isinstance(v, int):
-            cands = [v - 1, v + 1, 2 * v, max(1, v // 2), 1, 2, 3]
+            cands = [v - 1, v + 1, 2 * v, max(1, v // 2), 0, 1, 2, 3]
         elif isinstance(v, float):
-            cands = [v / 2, v * 0.9, v * 1.5, v * 2, 0.05, 0.1, 0.25, 0.35, 0.45, 0.5, 0.7, 0.9, 1.0, 1.5, 2.0]
+            cands = [v / 2, v * 0.9, v * 1.5, v * 2, 0.0, 0.05, 0.1, 0.25, 0.35, 0.45, 0.5, 0.7, 0.9, 1.0, 1.5, 2.0]
         elif isinstance(v, list) and v and all(isinstance(x, (int, float)) and not isinstance(x, bool) for x in v):
             cands = [[x * 0.5 for x in v], [x * 2 for x in v], list(reversed(v))]
             if all(isinstance(x, int) for x in v):
